@@ -384,9 +384,27 @@ func ruleNoSwallowedErrors(r *Run, id string, floor int, dropped bool, pkgs ...s
 					}
 					// inverted test: the branch on which the error is nil hands that (nil) error back while the failure
 					// edge carries on with the call's other results
-					if ret := firstReturnFrom(ne); ret != nil && fe != nil {
-						rs := retResults(ret)
-						if len(rs) > 0 && (rs[len(rs)-1] == ev || sameValue(rs[len(rs)-1], ev)) && firstReturnFrom(fe) == nil {
+					if fe != nil && fe != ne {
+						// region form: somewhere under the nil edge the (nil) error itself is returned, while the
+						// failure edge does not return but carries on
+						nilRet, failRet := false, false
+						for _, b := range fn.Blocks {
+							ret, isRet := b.Instrs[len(b.Instrs)-1].(*ssa.Return)
+							if !isRet {
+								continue
+							}
+							if edgeDominates(ifs.Block(), ne, b) {
+								rs := retResults(ret)
+								if len(rs) > 0 && (rs[len(rs)-1] == ev || sameValue(rs[len(rs)-1], ev)) {
+									nilRet = true
+								}
+							}
+							if edgeDominates(ifs.Block(), fe, b) {
+								failRet = true
+							}
+						}
+						_ = failRet
+						if nilRet && firstReturnFrom(fe) == nil {
 							j++
 							r.Check(fmt.Sprintf("%s errtest#%d of %s polarity", name, j, calleeShort(c)), false, posOf(p, ifs), name, "the error of "+calleeShort(c)+" is returned on the branch where it is nil, and the branch where it is non-nil continues: the test is inverted")
 						}
